@@ -294,7 +294,18 @@ def gen_cli(repo):
 
 # ------------------------------------------------------------------ commands.parse_config_file
 class CfgChain:
-    """for key, val in config[<section>].items(): <if/elif chain>  ->  Gallina over key.lower()"""
+    """config = ConfigParser(interpolation=None); config.read(path); [constant tables]; for key, val in config[<section>].items(): ...
+
+    The loop body is PARTIALLY EVALUATED over the key: for every string literal of the function taken as the (lower-cased) key,
+    and for one sentinel standing for every other key, the body is executed with the key concrete and `val` symbolic.  Only
+    expressions of a small grammar may look at the key -- `key.lower()` (raw `key` is refused), names bound to such values,
+    ==, !=, in, not in against literals or constant tables, and/or/not, `<constant dict>.get(k, d)`, `<constant dict>[k]`,
+    conditional expressions -- so a key that equals no literal of the function provably behaves like the sentinel.  `val` may be
+    rebound once to `[i for i in val.split("\\n") if i]` (TLines) or `val.lower() == "true"` (TBoolTrue), and every path must
+    store exactly once, `kwargs[<key expression>] = val`.  The shape of the dispatch (if/elif chain, membership tables, rename
+    dictionaries, early `continue`) is free; anything outside the grammar makes the translator refuse."""
+
+    OTHER = "\x00any-other-key\x00"
 
     def __init__(self, fn):
         self.fn = fn
@@ -305,12 +316,24 @@ class CfgChain:
         self.cfgv = self.keyv = self.valv = None
         self.interp_none = False
         self.section = None
+        self.consts = {}
+
+    # ---- constants: str, or tuple / list / set / dict of str
+    def const_table(self, e):
+        if isinstance(e, ast.Constant) and isinstance(e.value, str):
+            return e.value
+        if isinstance(e, (ast.Tuple, ast.List, ast.Set)) and all(isinstance(x, ast.Constant) and isinstance(x.value, str) for x in e.elts):
+            return tuple(x.value for x in e.elts)
+        if isinstance(e, ast.Dict) and all(isinstance(k, ast.Constant) and isinstance(k.value, str) for k in e.keys) \
+                and all(isinstance(v, ast.Constant) and isinstance(v.value, str) for v in e.values):
+            return {k.value: v.value for k, v in zip(e.keys, e.values)}
+        return None
 
     def run(self):
-        body = strip_doc(self.fn.body)
-        if len(body) != 3:
+        body = [st for st in strip_doc(self.fn.body) if not is_logging(st)]
+        if len(body) < 3:
             raise Refuse("parse_config_file: expected `config = ConfigParser(...)`, `config.read(path)`, one for-loop")
-        a, r, loop = body
+        a, r = body[0], body[1]
         # config = configparser.ConfigParser(interpolation=None)
         if not (isinstance(a, ast.Assign) and len(a.targets) == 1 and isinstance(a.targets[0], ast.Name)
                 and isinstance(a.value, ast.Call) and ast.unparse(a.value.func) in ("configparser.ConfigParser", "ConfigParser")
@@ -328,10 +351,18 @@ class CfgChain:
                 and len(r.value.args) == 1 and not r.value.keywords
                 and isinstance(r.value.args[0], ast.Name) and r.value.args[0].id == self.pathv):
             raise Refuse(f"line {r.lineno}: expected `{self.cfgv}.read({self.pathv})`")
+        # constant tables, then the loop (nothing after it)
+        for st in body[2:-1]:
+            c = self.const_table(st.value) if isinstance(st, ast.Assign) and len(st.targets) == 1 \
+                and isinstance(st.targets[0], ast.Name) else None
+            if c is None or st.targets[0].id in (self.cfgv, self.pathv, self.kwv):
+                raise Refuse(f"line {st.lineno}: between `{self.cfgv}.read(...)` and the loop only `<name> = <constant table of strings>`")
+            self.consts[st.targets[0].id] = c
+        loop = body[-1]
         # for key, val in config["config"].items():
         if not (isinstance(loop, ast.For) and not loop.orelse and isinstance(loop.target, ast.Tuple)
                 and len(loop.target.elts) == 2 and all(isinstance(e, ast.Name) for e in loop.target.elts)):
-            raise Refuse(f"line {loop.lineno}: expected `for key, val in ...`")
+            raise Refuse(f"line {loop.lineno}: expected `for key, val in ...` as the last statement")
         self.keyv, self.valv = (e.id for e in loop.target.elts)
         it = loop.iter
         if not (isinstance(it, ast.Call) and not it.args and not it.keywords and isinstance(it.func, ast.Attribute)
@@ -340,30 +371,91 @@ class CfgChain:
                 and isinstance(it.func.value.slice, ast.Constant) and isinstance(it.func.value.slice.value, str)):
             raise Refuse(f"line {loop.lineno}: expected iteration over `{self.cfgv}[<literal>].items()`")
         self.section = it.func.value.slice.value
-        return self.block(loop.body, "TVerbatim", 1)
+        if self.keyv in self.consts or self.valv in self.consts:
+            raise Refuse("parse_config_file: loop variable shadows a constant table")
+        # every string literal of the function is a key worth distinguishing
+        lits = set()
+        for n in ast.walk(self.fn):
+            if isinstance(n, ast.Constant) and isinstance(n.value, str):
+                lits.add(n.value)
+        lits = sorted(k for k in lits if k == k.lower() and k and "\x00" not in k and all(32 <= ord(ch) < 127 for ch in k))
+        other = self.one_key(loop.body, self.OTHER)
+        rows = [(k, self.one_key(loop.body, k)) for k in lits]
 
-    # key.lower()
-    def is_lkey(self, e):
-        return (isinstance(e, ast.Call) and not e.args and not e.keywords and isinstance(e.func, ast.Attribute)
-                and e.func.attr == "lower" and isinstance(e.func.value, ast.Name) and e.func.value.id == self.keyv)
+        def show(k, res):
+            kw, tr = res
+            return f"({'key' if kw == k else qs(kw)}, {tr})"
+        if other[0] != self.OTHER and self.OTHER in other[0]:
+            raise Refuse("parse_config_file: the keyword stored for an unlisted key is derived from the key, not the key itself")
+        text, depth = "", 1
+        for k, res in rows:
+            same_as_default = (res[1] == other[1]) and ((res[0] == k and other[0] == self.OTHER) or (res[0] == other[0] != self.OTHER))
+            if same_as_default:
+                continue
+            text += f"if (key =? {qs(k)}) then {show(k, res)}\n" + "  " * depth + "else "
+        return text + show(self.OTHER, other)
 
-    def test(self, e):
+    # ---- expressions that may look at the key
+    def keyexpr(self, e, env):
+        """value of a key-only expression of the whitelisted grammar; Refuse otherwise"""
+        if isinstance(e, ast.Constant) and isinstance(e.value, (str, bool)):
+            return e.value
+        if isinstance(e, ast.Name):
+            if e.id in env:
+                return env[e.id]
+            if e.id in self.consts:
+                return self.consts[e.id]
+            raise Refuse(f"line {e.lineno}: `{e.id}` is not a key-derived name or a constant table (raw `{self.keyv}` must be lower-cased)")
+        if isinstance(e, ast.Call) and not e.args and not e.keywords and isinstance(e.func, ast.Attribute) and e.func.attr == "lower":
+            if isinstance(e.func.value, ast.Name) and e.func.value.id == self.keyv:
+                return env["\x00key"]
+            v = self.keyexpr(e.func.value, env)
+            if isinstance(v, str):
+                return v.lower()        # (the sentinel and the literal keys tried are their own lower case)
+        if isinstance(e, (ast.Tuple, ast.List, ast.Set)):
+            c = self.const_table(e)
+            if c is not None:
+                return c
+        if isinstance(e, ast.Dict):
+            c = self.const_table(e)
+            if c is not None:
+                return c
         if isinstance(e, ast.BoolOp):
-            op = " && " if isinstance(e.op, ast.And) else " || "
-            return "(" + op.join(self.test(v) for v in e.values) + ")"
+            vals = [self.keyexpr(v, env) for v in e.values]
+            if all(isinstance(v, bool) for v in vals):
+                return all(vals) if isinstance(e.op, ast.And) else any(vals)
         if isinstance(e, ast.UnaryOp) and isinstance(e.op, ast.Not):
-            return f"(negb {self.test(e.operand)})"
-        if isinstance(e, ast.Compare) and len(e.ops) == 1 and self.is_lkey(e.left):
-            rhs = e.comparators[0]
-            if isinstance(e.ops[0], ast.In) and isinstance(rhs, (ast.List, ast.Tuple, ast.Set)):
-                items = const(ast.List(elts=rhs.elts))
-                if all(isinstance(i, str) for i in items):
-                    return f"(mem_str key {qlist([qs(i) for i in items])})"
-            if isinstance(e.ops[0], ast.Eq) and isinstance(rhs, ast.Constant) and isinstance(rhs.value, str):
-                return f"(key =? {qs(rhs.value)})"
-            if isinstance(e.ops[0], ast.NotEq) and isinstance(rhs, ast.Constant) and isinstance(rhs.value, str):
-                return f"(negb (key =? {qs(rhs.value)}))"
-        raise Refuse(f"line {e.lineno}: test `{ast.unparse(e)}` is not a test on `{self.keyv}.lower()`")
+            v = self.keyexpr(e.operand, env)
+            if isinstance(v, bool):
+                return not v
+        if isinstance(e, ast.Compare) and len(e.ops) == 1:
+            l, r = self.keyexpr(e.left, env), self.keyexpr(e.comparators[0], env)
+            op = e.ops[0]
+            if isinstance(op, (ast.Eq, ast.NotEq)) and isinstance(l, str) and isinstance(r, str):
+                return (l == r) == isinstance(op, ast.Eq)
+            if isinstance(op, (ast.In, ast.NotIn)) and isinstance(l, str) and isinstance(r, (tuple, dict)):
+                return (l in r) == isinstance(op, ast.In)
+        if isinstance(e, ast.IfExp):
+            t = self.keyexpr(e.test, env)
+            if isinstance(t, bool):
+                return self.keyexpr(e.body if t else e.orelse, env)
+        if isinstance(e, ast.Call) and isinstance(e.func, ast.Attribute) and e.func.attr == "get" and not e.keywords \
+                and len(e.args) == 2:
+            d = self.keyexpr(e.func.value, env)
+            if isinstance(d, dict):
+                k, dflt = self.keyexpr(e.args[0], env), self.keyexpr(e.args[1], env)
+                if isinstance(k, str) and isinstance(dflt, str):
+                    return d.get(k, dflt)
+        if isinstance(e, ast.Subscript):
+            d, k = self.keyexpr(e.value, env), self.keyexpr(e.slice, env)
+            if isinstance(d, dict) and isinstance(k, str):
+                if k not in d:
+                    raise Refuse(f"line {e.lineno}: `{ast.unparse(e)}` raises KeyError for the key {k!r}")
+                return d[k]
+        raise Refuse(f"line {getattr(e, 'lineno', '?')}: `{ast.unparse(e)}` is outside the grammar of key expressions")
+
+    def mentions_val(self, e):
+        return any(isinstance(n, ast.Name) and n.id == self.valv for n in ast.walk(e))
 
     def is_split_lines(self, e):
         """[i for i in val.split("\\n") if i]"""
@@ -385,48 +477,69 @@ class CfgChain:
                 and isinstance(e.left.func.value, ast.Name) and e.left.func.value.id == self.valv
                 and isinstance(e.comparators[0], ast.Constant) and e.comparators[0].value == "true")
 
-    def block(self, stmts, tr, depth):
-        """exactly one store on every path; `tr` is what `val` currently holds"""
-        pad = "  " * depth
+    def valexpr(self, e, tr):
+        """transform held by a value expression, given what `val` holds now"""
+        if isinstance(e, ast.Name) and e.id == self.valv:
+            return tr
+        if tr == "TVerbatim" and self.is_split_lines(e):
+            return "TLines"
+        if tr == "TVerbatim" and self.is_lower_true(e):
+            return "TBoolTrue"
+        raise Refuse(f"line {e.lineno}: value `{ast.unparse(e)}` not understood (val currently holds {tr})")
+
+    def one_key(self, stmts, k):
+        """run one iteration of the loop with key.lower() == k; returns (keyword stored to, transform)"""
+        state = {"env": {"\x00key": k}, "tr": "TVerbatim", "stores": []}
+        self.exec_block(stmts, state)
+        if len(state["stores"]) != 1:
+            what = "every other key" if k == self.OTHER else repr(k)
+            raise Refuse(f"parse_config_file: the path for key {what} stores {len(state['stores'])} times (exactly one store is modelled)")
+        return state["stores"][0]
+
+    def exec_block(self, stmts, state):
+        """returns False when the iteration ended (`continue`)"""
         stmts = [s for s in stmts if not is_logging(s)]
-        if not stmts:
-            raise Refuse("parse_config_file: a path through the chain stores nothing")
-        st, rest = stmts[0], stmts[1:]
-        # `kwargs.setdefault("k", <literal>)` directly followed by `kwargs["k"] = ...`: no effect
-        if rest and isinstance(st, ast.Expr) and isinstance(st.value, ast.Call) \
-                and ast.unparse(st.value.func) == f"{self.kwv}.setdefault" and len(st.value.args) == 2 \
-                and not st.value.keywords and isinstance(st.value.args[0], ast.Constant) \
-                and isinstance(rest[0], ast.Assign) and len(rest[0].targets) == 1 \
-                and ast.unparse(rest[0].targets[0]) == f"{self.kwv}[{st.value.args[0].value!r}]":
-            const(st.value.args[1])
-            return self.block(rest, tr, depth)
-        if isinstance(st, ast.Assign) and len(st.targets) == 1 and isinstance(st.targets[0], ast.Name) \
-                and st.targets[0].id == self.valv:
-            if tr == "TVerbatim" and self.is_split_lines(st.value):
-                return self.block(rest, "TLines", depth)
-            raise Refuse(f"line {st.lineno}: rebinding of `{self.valv}` not understood: {ast.unparse(st.value)}")
-        if rest:
-            raise Refuse(f"line {rest[0].lineno}: statement after the store/branch of a path")
-        if isinstance(st, ast.If):
-            if not st.orelse:
-                raise Refuse(f"line {st.lineno}: `if` without else: some keys store nothing")
-            return (f"if {self.test(st.test)} then\n{pad}  {self.block(st.body, tr, depth + 1)}\n"
-                    f"{pad}else {self.block(st.orelse, tr, depth + 1)}")
-        if isinstance(st, ast.Assign) and len(st.targets) == 1 and isinstance(st.targets[0], ast.Subscript) \
-                and isinstance(st.targets[0].value, ast.Name) and st.targets[0].value.id == self.kwv:
-            sl = st.targets[0].slice
-            if isinstance(sl, ast.Constant) and isinstance(sl.value, str):
-                kw = qs(sl.value)
-            elif self.is_lkey(sl):
-                kw = "key"
-            else:
-                raise Refuse(f"line {st.lineno}: keyword `{ast.unparse(sl)}` is neither a literal nor key.lower()")
-            if isinstance(st.value, ast.Name) and st.value.id == self.valv:
-                return f"({kw}, {tr})"
-            if tr == "TVerbatim" and self.is_lower_true(st.value):
-                return f"({kw}, TBoolTrue)"
-            raise Refuse(f"line {st.lineno}: stored value `{ast.unparse(st.value)}` not understood")
-        raise Refuse(f"line {st.lineno}: statement `{ast.unparse(st)[:60]}` not understood")
+        i = 0
+        while i < len(stmts):
+            st = stmts[i]
+            i += 1
+            if isinstance(st, ast.Continue):
+                return False
+            if isinstance(st, ast.Pass):
+                continue
+            if isinstance(st, ast.If):
+                t = self.keyexpr(st.test, state["env"])
+                if not isinstance(t, bool):
+                    raise Refuse(f"line {st.lineno}: test `{ast.unparse(st.test)}` is not a boolean over the key")
+                if not self.exec_block(st.body if t else st.orelse, state):
+                    return False
+                continue
+            # kwargs.setdefault("k", <literal>) directly followed by kwargs["k"] = ...: no effect
+            if isinstance(st, ast.Expr) and isinstance(st.value, ast.Call) \
+                    and ast.unparse(st.value.func) == f"{self.kwv}.setdefault" and len(st.value.args) == 2 \
+                    and not st.value.keywords and isinstance(st.value.args[0], ast.Constant) and i < len(stmts) \
+                    and isinstance(stmts[i], ast.Assign) and len(stmts[i].targets) == 1 \
+                    and ast.unparse(stmts[i].targets[0]) == f"{self.kwv}[{st.value.args[0].value!r}]":
+                const(st.value.args[1])
+                continue
+            if isinstance(st, ast.Assign) and len(st.targets) == 1:
+                tg = st.targets[0]
+                if isinstance(tg, ast.Name) and tg.id == self.valv:
+                    state["tr"] = self.valexpr(st.value, state["tr"])
+                    continue
+                if isinstance(tg, ast.Name) and tg.id not in (self.keyv, self.kwv, self.cfgv, self.pathv) \
+                        and not self.mentions_val(st.value):
+                    v = self.keyexpr(st.value, state["env"])
+                    state["env"] = dict(state["env"], **{tg.id: v})
+                    continue
+                if isinstance(tg, ast.Subscript) and isinstance(tg.value, ast.Name) and tg.value.id == self.kwv:
+                    kw = self.keyexpr(tg.slice, state["env"])
+                    if not isinstance(kw, str):
+                        raise Refuse(f"line {st.lineno}: keyword `{ast.unparse(tg.slice)}` is not a string")
+                    state["stores"].append((kw, self.valexpr(st.value, state["tr"])))
+                    continue
+            raise Refuse(f"line {st.lineno}: statement `{ast.unparse(st)[:60]}` not understood")
+        return True
 
 
 # ------------------------------------------------------------------ torrent.MetaFile.__init__
